@@ -261,6 +261,7 @@ func (e *Engine) SolveUnit(unitName string, uses []string) []*OblResult {
 				if j.res.Status != "unsat" {
 					r.Status = "cover-unknown"
 				}
+				r.query = j.query
 			}
 			if r.Status != "cover-ok" {
 				for i := 1; i < len(o.Paths); i++ {
